@@ -1046,8 +1046,8 @@ class ParserField:
             discriminator = value.get(self.discriminator)
             try:
                 matched = discriminator in self.discriminator_map
-            except TypeError:
-                # an unhashable value cannot be one of the declared constants
+            except Exception:  # noqa
+                # an unhashable value (or one that fails to hash) cannot be one of the declared constants
                 matched = False
             if matched:
                 type = self.discriminator_map[discriminator]
